@@ -5,7 +5,7 @@
     [bitmap.ToArray/Of] [ws]           Of(ToArray(ws))          -> words (= ws without trailing zero words)
     [bitmap.Get]        [ws; i]        i inside                 -> [Get; Get1]
     [bitmap.SafeGet]    [ws; i]        any int32 i              -> [SafeGet; SafeGet1]
-    [bitmap.OfMany]     [subs; sizes]                           -> words
+    [bitmap.OfMany]     [subs; sizes]  whole non-panic domain (ofmany_dom2: positions >= size in any segment) -> words
     [bitmap.Builder]    [n; [op...]]   op = [0; ps; size] (Extend) | [1; p; v] (Set)
                                        -> [[Words; Offset] after NewBuilder and after every call]
     widening (neighbouring code of package bitmap):
@@ -23,8 +23,9 @@
                                        Of(shifted concatenation, sum of sizes) agree (same words, or both panic), else [0; a; b].
                                        Only the RELATION is observed, so Of's behaviour outside its own domain is not pinned.
     [bitmap.Builder/asOfMany] [n; subs; sizes]  ascending shifted concatenation: NewBuilder(n) + one Extend per segment
-                                       -> [1] if Words = OfMany(subs, sizes) word for word and Offset = sum of sizes,
-                                          else [0; OfMany; Words; Offset] *)
+                                       -> [same words; same words after removing trailing zero words; Offset = sum of sizes;
+                                           OfMany; Words; Offset]  (whole non-panic domain of OfMany; word-for-word
+                                           equality is required only where the shifted concatenation is ascending) *)
 From Coq Require Import ZArith List Bool String.
 From Low Require Import Lib.Bits Lib.BitSeq Lib.Val Model.BuilderOps Model.BitmapOf Spec.OfSpec
   Model.BitmapMask12 Spec.MaskSpec12 Model.BitmapFmt12 Spec.FmtSpec12
@@ -143,7 +144,7 @@ Definition ops_C12_core : list opdef := [
   {| op_name := "bitmap.OfMany";
      op_run := fun a => match a with
        | [subs; sizes] => match as_zss subs, as_zs sizes with
-           | Some subs, Some sizes => if ofmany_dom subs sizes then vwords (OfMany subs sizes) else VBad
+           | Some subs, Some sizes => if ofmany_dom2 subs sizes then vwords (OfMany subs sizes) else VBad
            | _, _ => VBad end
        | _ => VBad end;
      op_spec := fun a obs => match a with
@@ -280,17 +281,22 @@ Definition ops_C12_any : list opdef := [
      op_run := fun a => match a with
        | [n; subs; sizes] => match as_z n, as_zss subs, as_zs sizes with
            | Some n, Some subs, Some sizes =>
-               if (0 <=? n) && ofmany_dom subs sizes && forallb (fun ps => sortedb ps && nonnegb ps) subs then
+               if (0 <=? n) && ofmany_dom2 subs sizes then
                  let ops := map (fun x => BExtend (fst x) (snd x)) (combine subs sizes) in
                  match bind (NewBuilder n) (fun b => bfoldM b ops), OfMany subs sizes with
                  | Some b, Some r =>
-                     if zs_eqb r (Words b) && (Offset b =? total sizes) then VL [VZ 1]
-                     else VL [VZ 0; vzs r; vzs (Words b); VZ (Offset b)]
+                     VL [vbool (zs_eqb r (Words b)); vbool (zs_eqb (strip0 r) (strip0 (Words b)));
+                         vbool (Offset b =? total sizes); vzs r; vzs (Words b); VZ (Offset b)]
                  | _, _ => VPanic end
                else VBad
            | _, _, _ => VBad end
        | _ => VBad end;
-     op_spec := fun_spec (fun _ => VL [VZ 1]) |}
+     (* same set of bits and Offset = sum always; word for word where the shifted concatenation is ascending *)
+     op_spec := fun a obs => match a, obs with
+       | [n; subs; sizes], VL (VZ w :: VZ 1 :: VZ 1 :: _) => match as_zss subs, as_zs sizes with
+           | Some subs, Some sizes => if ofmany_dom subs sizes then w =? 1 else true
+           | _, _ => false end
+       | _, _ => false end |}
 ].
 
 Definition ops_C12 : list opdef := ops_C12_core ++ ops_C12_wide ++ ops_C12_query ++ ops_C12_any.
